@@ -70,9 +70,9 @@ TFinish == /\ l = Len(T.events) + 1
            /\ T.jvp = PathSum(args, 1) /\ T.jvp2 = 2 * PathSum(args, 1) /\ T.fwd_intact
            /\ (T.jac # <<>> => T.jac = <<PathSum(args, 1), 0, 0, PathSum(args, 1)>>)
            \* second order on the same graph: z = sum(F(x)^2), Hessian 2 ps^2 I; reverse-over-reverse, forward-over-reverse and
-           \* reverse-over-forward Hessian-vector products with v = (1, 2) all equal (2 ps^2, 4 ps^2); so does the first-order gradient
-           \* at x = (1, 2) when it is evaluated while an outer differentiation traces it (last two entries)
-           /\ (T.hvp # <<>> => LET h == 2 * PathSum(args, 1) * PathSum(args, 1) IN T.hvp = <<h, 2 * h, h, 2 * h, h, 2 * h, h, 2 * h>>)
+           \* reverse-over-forward Hessian-vector products with v = (1, 2) all equal (2 ps^2, 4 ps^2); the first-order gradient
+           \* 2 ps F(x), evaluated while an outer differentiation traces it, is bound to the recorded value F(x) = (val, val2) (last two entries)
+           /\ (T.hvp # <<>> => LET h == 2 * PathSum(args, 1) * PathSum(args, 1) IN T.hvp = <<h, 2 * h, h, 2 * h, h, 2 * h, 2 * PathSum(args, 1) * T.val, 2 * PathSum(args, 1) * T.val2>>)
            /\ PrintT(<<"ACCEPT", T.id>>)
            /\ l' = l + 1 /\ UNCHANGED <<avars, tid>>
 
